@@ -42,6 +42,8 @@ if TYPE_CHECKING:
     from .expression import Expression
 
 
+MAX_REPEAT = 2**32 - 1
+
 PRECEDENCE_LOWEST = 1
 PRECEDENCE_CHOICE = 2
 PRECEDENCE_SEQUENCE = 3
@@ -304,10 +306,16 @@ class Parser:
     def parse_int(self, token: Token) -> int:
         """Return the value of a NUMBER or INTEGER token."""
         try:
-            return int(token.value)
+            value = int(token.value)
         except ValueError as err:
             # More digits than `int()` is willing to convert.
             raise PestGrammarSyntaxError("number too large", token=token) from err
+
+        if token.kind == TokenKind.NUMBER and value > MAX_REPEAT:
+            # Same limit and message as pest, where repeat counts are `u32`.
+            raise PestGrammarSyntaxError("number cannot overflow u32", token=token)
+
+        return value
 
     def parse_peek_expression(self, tag: str | None) -> Expression:
         if self.current().kind != TokenKind.LBRACKET:
